@@ -299,6 +299,23 @@ def check_ir(ir, rng, text_for_report=""):
     walk_expressions(d["module"][0], exprs.append)
     for e in exprs:
         if "integer" not in e["type"]:
+            # comparison / boolean-valued operator over integers: its operands must fit one 64-bit type
+            if "function" in e and "boolean" in e["type"]:
+                los, his, nonconst = [], [], False
+                for a in e["function"].get("args", []):
+                    ai = a.get("type", {}).get("integer")
+                    if ai and ai.get("minimum_value") not in (None, "-infinity") and ai.get("maximum_value") not in (None, "infinity"):
+                        los.append(int(ai["minimum_value"]))
+                        his.append(int(ai["maximum_value"]))
+                        if ai.get("modulus") != "infinity":
+                            nonconst = True
+                if los and nonconst:
+                    _st("fit_checked")
+                    _st("comparison_fit_checked")
+                    L, H = min(los), max(his)
+                    if not ((L >= -(1 << 63) and H < (1 << 63)) or (L >= 0 and H < (1 << 64))):
+                        viol.append(("no-64-bit-type", "run-time comparison %s has operands spanning [%d, %d]: no single 64-bit type" % (
+                            render(e), L, H)))
             continue
         ann = e["type"]["integer"]
         if not all(k in ann for k in ("modulus", "modular_value", "minimum_value", "maximum_value")):
@@ -480,10 +497,12 @@ def expr_module(rng):
     nvars = rng.randint(1, 5)
     lines = ['[$default byte_order: "LittleEndian"]', "struct Expr(p: UInt:%d, q: Int:%d):" % (rng.choice([1, 7, 8, 16]), rng.choice([2, 8, 16]))]
     names = ["p", "q"]
+    widths = {}
     off = 0
     for i in range(nvars):
         k = rng.random()
-        nb = rng.choice([1, 1, 2, 2, 3, 4, 8])
+        nb = rng.choice([1, 1, 2, 2, 3, 4, 8, 8])
+        widths['%d' % i] = nb
         if k < 0.5:
             lines.append("  %d [+%d]  UInt  u%d" % (off, nb, i))
             names.append("u%d" % i)
@@ -529,6 +548,16 @@ def expr_module(rng):
             lines.append("  let ub%d = $upper_bound(v%d) - $lower_bound(v%d)" % (j, j, j))
         if rng.random() < 0.4:
             small.append("v%d" % j)
+    # run-time comparisons between operands of different widths and signedness (each on its own line, so
+    # that a rejected one does not hide the others... the compiler reports all of them)
+    wide = [n for n in names if n[0] == "u" and widths.get(n[1:]) == 8]
+    signed = [n for n in names if n[0] in "sq" or n == "i4"]
+    if wide and signed and rng.random() < 0.5:
+        # an operand that needs uint64 against one that can be negative: no common 64-bit type
+        lines.append("  let cmpw = %s %s %s" % (rng.choice(wide), rng.choice(["==", "<", ">="]), rng.choice(signed)))
+    for j in range(rng.randint(1, 4)):
+        a, b = rng.choice(small), rng.choice(small + consts[:6])
+        lines.append("  let cmp%d = %s %s %s" % (j, a, rng.choice(["==", "!=", "<", "<=", ">", ">="]), b))
     return "\n".join(lines) + "\n"
 
 
